@@ -22,6 +22,7 @@ func vpRecTok(r []byte) string
 func vpRecPrio(r []byte) int
 func vpRecParses(r []byte) bool
 func vpRecEmpty(r []byte) bool
+func vpSameBytes(a, b []byte) bool // the same byte string (identity of the abstract record / bytes.Equal natively)
 func vpRecMapID(r []byte) (bool, string)
 func vpRecMapTok(r []byte) (bool, string)
 func vpChoose(name string, n int) int
